@@ -38,6 +38,26 @@ def many_segments(rnd):
     return segs
 
 
+def repeated_metadata(rnd):
+    """byte-identical metadata blocks in non-adjacent segments whose meaning differs: `matches previous` headers after the raw data
+    index changed in between (a parse must not be identified by its bytes)"""
+    import struct
+    pa, pb = gen_files.path_of("g", "a"), gen_files.path_of("g", "b")
+    base = dict(interleaved=False, big=rnd.random() < 0.3, rawFlag=True, daqmxFlag=False, lengthUnknown=False, version=4713, padding=0, hasMeta=True)
+    val = lambda n: [struct.pack("<i", rnd.randint(-999, 999)) for _ in range(n)]  # noqa
+    new_list = rnd.random() < 0.7
+    segs = []
+    na, nb = rnd.randint(1, 4), rnd.randint(1, 4)
+    for rnd_ in range(rnd.randint(2, 3)):
+        full = dict(base, newList=True, objs=[dict(path=pa, idx=("F", 3, na, 0), props=[]), dict(path=pb, idx=("F", 3, nb, 0), props=[])],
+                    chunks=[[val(na), val(nb)] for _ in range(rnd.randint(1, 2))])
+        same = dict(base, newList=new_list, objs=[dict(path=pa, idx=("M",), props=[]), dict(path=pb, idx=("M",), props=[])],
+                    chunks=[[val(na), val(nb)] for _ in range(rnd.randint(1, 2))])
+        segs += [full, same]
+        na, nb = na + rnd.randint(1, 3), max(1, nb + rnd.choice([-1, 1, 2]))
+    return segs
+
+
 class FileStream:
     """iterates well-formed generated files: yields (index, segs, enc_json, data bytes, feature set)"""
 
@@ -49,7 +69,7 @@ class FileStream:
         self.distinct = 0
 
     def __iter__(self):
-        first = [many_segments(self.ctx.rnd)]
+        first = [many_segments(self.ctx.rnd), repeated_metadata(self.ctx.rnd)]
         for i in range(-len(first), self.n):
             segs = first[i] if i < 0 else gen_files.FileGen(self.ctx.rnd, **self.opts).draw()
             e = self.model.ask(gen_files.to_line(segs))
